@@ -1,6 +1,7 @@
 import Driver.Wire
 import Driver.Spec
 import Driver.Tools
+import Driver.Lazy
 /-
   csmodel: the executable face of the Lean model.  One request per line on stdin, one reply line
   per request on stdout.  Pure function of its input.
@@ -18,6 +19,7 @@ def respond (line : String) : String :=
     | "D" :: args => cmdD (" ".intercalate args :: rest)
     | "S" :: args => cmdS args
     | "T" :: args => cmdT args
+    | "L" :: args => cmdL (" ".intercalate args :: rest)
     | _ => "bad"
 
 partial def loop (hin hout : IO.FS.Stream) : IO Unit := do
